@@ -167,7 +167,11 @@ func (in *Interp) dispatch(s *State, th *Thread, f *Frame, c *callee, at ssa.Ins
 	if o := fn.Origin(); o != nil {
 		key = o.String()
 	}
-	if h, ok := intrinsics[key]; ok {
+	h, ok := intrinsics[key]
+	if !ok && in.cfg.Models[key] {
+		h, ok = optIntrinsics[key]
+	}
+	if ok {
 		v, forks, done := h(in, s, &callCtx{th: th, f: f, at: at, args: c.args, retTo: retTo, rk: rk, fn: fn})
 		if forks != nil {
 			return forks
